@@ -844,3 +844,50 @@ def histories(w, cfg):
 def distinct_from(w, v, xs):
     for a in xs:
         w.assume(w.Or(w.ge(a - v, 1e-6), w.ge(v - a, 1e-6)))
+
+
+# --------------------------------------------------------------------------- group 6: temporary package switch and back
+
+def switch_configs(tier):
+    return [{'name': f'kind={k};edit={e};touch={t}', 'kind': k, 'edit': e, 'touch': t}
+            for k in (['l', 'gl'] if tier == 'quick' else ['l', 'g', 'gl', 'gls']) for e in (False, True) for t in (True, False)]
+
+
+@group('C11/package_switch', configs=switch_configs, assumptions=ASSUME,
+       functions=['thermosteam.indexer:ChemicalIndexer.reset_chemicals', 'thermosteam.indexer:MaterialIndexer.reset_chemicals'] + FUNCS_VIEWS[:8])
+def package_switch(w, cfg):
+    """
+    reset_chemicals(other package) followed by reset_chemicals(original package, container) -- what Reaction.__call__ /
+    conversion do with a stream defined on other chemicals -- brings the stream back to its package; every view agrees
+    with the molar data again (which are the data of the moment of the way back, matched by chemical).
+    """
+    W.reset_caches()
+    thA = package(w, 'A'); thB = package(w, 'B3')
+    s, _ = mk(w, 's', cfg['kind'], 'A', 'diag', th=thA)
+    multi = isinstance(s, tmo.MultiStream)
+    if cfg['touch']:
+        observe(w, s, 'before', units=())
+    old = observe_raw(s)
+    T, P = s.T, s.P
+    imol = s._imol
+    container = imol.reset_chemicals(thB.chemicals)
+
+    def raw_switched():      # the stream object still names package A; the indexer is on package B
+        IDs = imol.chemicals.IDs
+        rows = list(zip(imol._phases, imol.data.rows)) if multi else [(imol._phase._phase, imol.data)]
+        return {(p, ID): sv.dct.get(k, 0.) for p, sv in rows for k, ID in enumerate(IDs)}
+    sw = raw_switched()
+    w.ensure('switched: flows carried over by chemical',
+             w.And(imol.chemicals is thB.chemicals, *[w.eq(sw.get(k, 0.), v) for k, v in old.items()],
+                   *[w.eq(v, 0.) for k, v in sw.items() if k not in old]))
+    ph = s.phases[0] if multi else s.phase
+    if cfg['edit']:
+        x = w.real('x', lo=0, lo_strict=True)
+        imol[(ph, 'Water') if multi else 'Water'] = x
+        old[ph, 'Water'] = x
+    imol.reset_chemicals(thA.chemicals, container)
+    new = observe_raw(s)
+    w.ensure('back: original chemicals, flows carried over by chemical',
+             w.And(imol.chemicals is thA.chemicals, set(new) == set(old), *[w.eq(new.get(k, 0.), v) for k, v in old.items()]))
+    w.ensure('T, P unchanged', w.And(w.eq(s.T, T), w.eq(s.P, P)))
+    observe(w, s, 'after', units=('lb/hr', 'L/min'), canary=True)
